@@ -107,9 +107,10 @@ def q_from_axes(a1, a2):
 # ------------------------------------------------------------------------------------------------
 # alphabets
 # ------------------------------------------------------------------------------------------------
-AXES_3D = ["canonical", "inplane", "generic", "x2", "x0.5", "mixed", "swapped", "zup"]
+# "tiny": axes rotated by 1e-3 rad about z (a small fibre misalignment: almost, but not, the global axes)
+AXES_3D = ["canonical", "inplane", "generic", "x2", "x0.5", "mixed", "swapped", "zup", "tiny"]
 AXES_3D_THOROUGH = ["generic_b", "generic_c", "rot90z", "rot180z", "yz"]
-AXES_INPLANE = ["canonical", "inplane", "x2", "x0.5", "mixed", "swapped"]
+AXES_INPLANE = ["canonical", "inplane", "x2", "x0.5", "mixed", "swapped", "tiny"]
 AXES_INPLANE_THOROUGH = ["inplane_b", "rot90z", "rot180z"]
 NONUNIT = {"x2": (2.0, 2.0), "x0.5": (0.5, 0.5), "mixed": (2.0, 0.5)}
 
@@ -214,6 +215,9 @@ def axes_vectors(name, tag="0"):
         return ey.copy(), -ex
     if name == "rot180z":
         return -ex, -ey
+    if name == "tiny":
+        th = 1e-3
+        return np.array([np.cos(th), np.sin(th), 0.0]), np.array([-np.sin(th), np.cos(th), 0.0])
     if name.startswith("inplane"):
         th = generic_angle(name + tag)
         return np.array([np.cos(th), np.sin(th), 0.0]), np.array([-np.sin(th), np.cos(th), 0.0])
@@ -404,8 +408,8 @@ def _law_cases(tier):
 
 PMAT_SHAPES = {"i": (), "e": (4,), "ep": (3, 2)}
 PMAT_SHAPES_THOROUGH = {"e1": (1,), "ep_dd": None, "ep_66": (6, 6)}  # ep_dd: Ne = nPg = dim
-PMAT_AXES = {3: ["canonical", "inplane", "generic", "x2", "x0.5", "mixed", "swapped", "zup"],
-             2: ["canonical", "inplane", "x2", "x0.5", "mixed", "swapped"]}
+PMAT_AXES = {3: ["canonical", "inplane", "generic", "x2", "x0.5", "mixed", "swapped", "zup", "tiny"],
+             2: ["canonical", "inplane", "x2", "x0.5", "mixed", "swapped", "tiny"]}
 
 
 def _pmat_cases(tier):
